@@ -34,6 +34,11 @@ type OrderCase struct {
 	// socket buffers are full the emitter advances at that pace
 	SlowRegs   int `json:"slowregs,omitempty"`
 	ThrottleUS int `json:"throttle_us,omitempty"`
+	// Blind: the snipers also unregister the identifiers which come next (not
+	// listed yet: a service whose registration is still under way), and the
+	// activation of the local services takes ActivateUS microseconds
+	Blind      bool `json:"blind,omitempty"`
+	ActivateUS int  `json:"activate_us,omitempty"`
 }
 
 func genOrder(t *rapid.T) OrderCase {
@@ -44,6 +49,8 @@ func genOrder(t *rapid.T) OrderCase {
 		Spinners:   rapid.SampledFrom([]int{0, 0, 0, 1, 2}).Draw(t, "spinners"),
 		SlowRegs:   rapid.SampledFrom([]int{0, 20, 40, 40, 100}).Draw(t, "slowregs"),
 		ThrottleUS: rapid.SampledFrom([]int{5, 20, 50}).Draw(t, "throttle"),
+		Blind:      rapid.Bool().Draw(t, "blind"),
+		ActivateUS: rapid.SampledFrom([]int{0, 0, 200, 1000, 3000}).Draw(t, "activate"),
 	}
 }
 
@@ -95,7 +102,7 @@ func checkOrder(c OrderCase) error {
 			}
 		}()
 	}
-	var sniped int32
+	var sniped, blind int32
 	var setupErr atomic.Value
 	for i := 0; i < c.Snipers; i++ {
 		raw, err := netkit.Dial(w.env.Addr)
@@ -108,11 +115,23 @@ func checkOrder(c OrderCase) error {
 		wg.Add(1)
 		go func() {
 			defer wg.Done()
+			guess := uint32(2)
 			for {
 				select {
 				case <-stop:
 					return
 				default:
+				}
+				if c.Blind {
+					for k := uint32(0); k < 3; k++ {
+						r, ok := raw.CallWait(1, 1, 103, binary.LittleEndian.AppendUint32(nil, guess+k), bound)
+						if ok && r.Type == netkit.Reply {
+							atomic.AddInt32(&sniped, 1)
+							atomic.AddInt32(&blind, 1)
+							guess += k + 1
+							break
+						}
+					}
 				}
 				f, ok := raw.CallWait(1, 1, 101, nil, bound)
 				if !ok || f.Type != netkit.Reply {
@@ -129,6 +148,9 @@ func checkOrder(c OrderCase) error {
 					if id <= 1 {
 						continue
 					}
+					if id >= guess {
+						guess = id + 1
+					}
 					r, ok := raw.CallWait(1, 1, 103, binary.LittleEndian.AppendUint32(nil, id), bound)
 					if ok && r.Type == netkit.Reply {
 						atomic.AddInt32(&sniped, 1)
@@ -140,7 +162,8 @@ func checkOrder(c OrderCase) error {
 	// the local path
 	created := 0
 	for r := 0; r < c.Rounds; r++ {
-		_, actor := probe.NewPong(fmt.Sprintf("L%d", r), w.env.Journal)
+		pp, actor := probe.NewPong(fmt.Sprintf("L%d", r), w.env.Journal)
+		pp.ActivateDelay = time.Duration(c.ActivateUS) * time.Microsecond
 		svc, err := w.env.Server.NewService(fmt.Sprintf("L%d", r), actor)
 		if err != nil {
 			continue
@@ -224,6 +247,7 @@ func checkOrder(c OrderCase) error {
 	key, _ := json.Marshal(c)
 	vt.Case(nontrivial, "order"+string(key), "mode=event-order", fmt.Sprintf("observers=%d", c.Observers), fmt.Sprintf("spinners=%d", c.Spinners), fmt.Sprintf("slow-subscriber-registrations=%d", c.SlowRegs))
 	vt.LabelN("foreign-unregistrations", int64(atomic.LoadInt32(&sniped)))
+	vt.LabelN("foreign-unregistrations-of-identifiers-not-listed", int64(atomic.LoadInt32(&blind)))
 	if nontrivial {
 		vt.Sample("event-order", c)
 	}
